@@ -137,14 +137,24 @@ func extractOwnership(repo string, f *Facts) {
 		f.bad("ownership: cannot load package ch: %v", err)
 		return
 	}
-	do := p.funcDecl("Client", "Do")
+	ownershipOf(p, f, "Do", "do", []roleRule{{"sender", "sendQuery"}, {"receiver", "packet"}, {"watch", "cancelQuery"}})
+	ownershipOf(p, f, "handshake", "handshake", []roleRule{{"hello", "packet"}, {"watchdog", ""}})
+}
+
+type roleRule struct {
+	role string
+	call string // a method of the client the goroutine's closure calls ("" = none of the others)
+}
+
+// ownershipOf: the goroutines `fn` starts through <group>.Go(func() error {…}), classified by `rules`, and what each touches
+func ownershipOf(p *Pkg, f *Facts, fn, prefix string, rules []roleRule) {
+	do := p.funcDecl("Client", fn)
 	if do == nil || do.Body == nil {
-		f.bad("ownership: (*Client).Do not found")
+		f.bad("ownership: (*Client).%s not found", fn)
 		return
 	}
 	o := &ownCtx{p: p, f: f, memo: map[*ast.FuncDecl]map[access]bool{}, stack: map[*ast.FuncDecl]bool{}, ctype: map[string]string{}}
 	recv, _ := o.isClientRecv(do)
-	// the goroutines: g.Go(func() error { ... })
 	type gor struct {
 		role string
 		body *ast.BlockStmt
@@ -173,24 +183,39 @@ func extractOwnership(repo string, f *Facts) {
 			return true
 		})
 		role := ""
-		switch {
-		case calls["sendQuery"]:
-			role = "sender"
-		case calls["packet"]:
-			role = "receiver"
-		case calls["cancelQuery"]:
-			role = "watch"
+		for _, r := range rules {
+			if r.call != "" && calls[r.call] {
+				role = r.role
+				break
+			}
 		}
 		if role == "" {
-			f.bad("ownership: a goroutine of Do at %s is none of sender / receiver / cancel-watch", p.fset.Position(fl.Pos()))
+			for _, r := range rules {
+				if r.call == "" {
+					role = r.role
+				}
+			}
+		}
+		if role == "" {
+			f.bad("ownership: a goroutine of %s at %s matches none of the expected roles", fn, p.fset.Position(fl.Pos()))
 		}
 		gs = append(gs, gor{role, fl.Body})
 		return false
 	})
-	if len(gs) != 3 {
-		f.bad("ownership: Do starts %d goroutines through g.Go, expected 3", len(gs))
+	if len(gs) != len(rules) {
+		f.bad("ownership: %s starts %d goroutines through Go, expected %d", fn, len(gs), len(rules))
 	}
-	roleID := map[string]int{"sender": 0, "receiver": 1, "watch": 2}
+	roleID := map[string]int{}
+	for i, r := range rules {
+		roleID[r.role] = i
+	}
+	seenRole := map[string]bool{}
+	for _, g := range gs {
+		if seenRole[g.role] && g.role != "" {
+			f.bad("ownership: two goroutines of %s are classified as %s", fn, g.role)
+		}
+		seenRole[g.role] = true
+	}
 	type row struct {
 		role    int
 		comp    string
@@ -236,7 +261,7 @@ func extractOwnership(repo string, f *Facts) {
 		return "false"
 	}
 	var sb strings.Builder
-	sb.WriteString("\n/-- components of the client state touched inside Do's goroutines: name, Go type -/\ndef doComponents : List (String × String) := [")
+	fmt.Fprintf(&sb, "\n/-- components of the client state touched inside the goroutines of %s: name, Go type -/\ndef %sComponents : List (String × String) := [", fn, prefix)
 	for i, n := range names {
 		if i > 0 {
 			sb.WriteString(", ")
@@ -247,7 +272,7 @@ func extractOwnership(repo string, f *Facts) {
 		}
 		fmt.Fprintf(&sb, "(%s, %s)", leanStr(n), leanStr(t))
 	}
-	sb.WriteString("]\n/-- (goroutine: 0 sender, 1 receiver, 2 cancel-watch; component index; mutating; under a lock) -/\ndef doAccesses : List (Nat × Nat × Bool × Bool) := [")
+	fmt.Fprintf(&sb, "]\n/-- (goroutine index in the order of the roles; component index; mutating; under a lock) -/\ndef %sAccesses : List (Nat × Nat × Bool × Bool) := [", prefix)
 	for i, r := range rows {
 		if i > 0 {
 			sb.WriteString(", ")
@@ -256,6 +281,6 @@ func extractOwnership(repo string, f *Facts) {
 	}
 	sb.WriteString("]\n")
 	f.raw("%s", sb.String())
-	f.Ints["doGoroutines"] = int64(len(gs))
-	f.raw("def doGoroutines : Nat := %d\n", len(gs))
+	f.Ints[prefix+"Goroutines"] = int64(len(gs))
+	f.raw("def %sGoroutines : Nat := %d\n", prefix, len(gs))
 }
